@@ -83,3 +83,14 @@ Theorem C07_arrays_are_rejected :
   forall (R : comRingType) dim (self : sp R) sw, [/\ sp_add dim self OArr = BErr TypeError, sp_sub dim self OArr = BErr TypeError, sp_mul dim self OArr sw = BErr TypeError & sp_div self OArr = BErr TypeError].
 Proof. first [exact: arrays_rejected | by move=> *; exact: arrays_rejected | by intros; eapply arrays_rejected; eauto]. Qed.
 Print Assumptions C07_arrays_are_rejected.
+
+From mathcomp Require Import ssrZ.
+From Coq Require Import ZArith.
+(* non-vacuity: two pointers of one VTB vocabulary (d = 4): accepted, bound in operand order *)
+Example C07_hypotheses_met :
+  let dim := fun _ : nat => 4%nat in
+  let a := SP [:: 1; 2; 3; 4]%Z (Some 0%nat) AVtb in let b := SP [:: 5; 6; 7; 8]%Z (Some 0%nat) AVtb in
+  [/\ gate dim a b = Ok (Some 0%nat), size (spv a) = size (spv b),
+      alg_bind AVtb (spv a) (spv b) = Ok (Scaled [:: 17; 23; 39; 53]%Z 2 1)
+    & alg_bind AVtb (spv b) (spv a) = Ok (Scaled [:: 17; 39; 23; 53]%Z 2 1)].
+Proof. by vm_compute. Qed.
